@@ -457,6 +457,11 @@ func c13(run *core.Run, replay string) {
 			}
 		}
 	}
+	// more distinct words than the dictionary / the word-index encoding can hold (block size >= 8 MiB so that the hash map can hold them)
+	for _, ent := range entVariants("TEXT") {
+		add(trCase{T: "TEXT", Entropy: ent, Shape: "wordlist3", Size: 6200000, Seed: run.Seed, BMul: 2})
+		add(trCase{T: "TEXT", Entropy: ent, Shape: "wordlist", Size: 7000000, Seed: run.Seed + 1, BMul: 8})
+	}
 	for si, sz := range []int{1 << 20, 1500000, 2500000} {
 		for _, ent := range entVariants("TEXT") {
 			add(trCase{T: "TEXT", Entropy: ent, Shape: []string{"wordlist", "bigvocab", "wordlist"}[si], Size: sz, Seed: run.Seed + int64(si), BMul: []int{4, 16, 2}[si]})
